@@ -469,7 +469,9 @@ def _menus():
             # mid-range fields of view: the window is wider than half the grid but does not cover it
             (8, 3, 3, 5, 2, False, False, True, 0.0, 40),
             (7, 2, 2, 4, 2, False, True, True, 0.0, 40),
-            (9, 3, 4, 4, 3, False, False, False, 0.0, 30)):
+            (9, 3, 4, 4, 3, False, False, False, 0.0, 30),
+            (6, 4, 1, 6, 2, False, False, True, 0.0, 40),      # four agents, one food: all four sides can load at once
+            (7, 5, 2, 7, 2, True, False, True, 0.0, 40)):
         add("LevelBasedForaging",
             f"g{g}a{a}f{f}v{fov}l{lvl}{'c' if coop else 'n'}{'G' if grid_obs else 'V'}{'N' if norm else 'R'}p{int(pen*10)}t{t}",
             lambda g=g, a=a, f=f, fov=fov, lvl=lvl, coop=coop, grid_obs=grid_obs, norm=norm, pen=pen, t=t,
@@ -615,7 +617,7 @@ QUICK = {
     "Sudoku": ["veryeasy", "dummy", "veryeasy_u8", "near"], "BinPack": ["r10e20s2", "r5e10s1o6", "r10e30o8huge"], "FlatPack": ["r2c3b", "r3c2c"],
     "JobShop": ["j3m2o3d2", "j5m4o4d4", "j40m4o3d4", "j130m3o2d3"], "Knapsack": ["n10s", "n50d", "q8d", "n130d"], "Tetris": ["r6c5t400", "r10c10t400"],
     "Cleaner": ["r3c7a1t7", "r5c11a2tNone", "r3c3a2tNone", "r4c6a2t12p0", "r13c13a3tNone"], "Connector": ["g5a2t7rw", "g6a3t50rw", "g5a2t12rwc20s0", "g12a48t50rw", "g6a5t30uni"],
-    "CVRP": ["n5s", "n20d", "zb6d", "n130d"], "LevelBasedForaging": ["g6a2f2v2l2cVNp0t100", "g8a3f3v3l3nGRp5t100", "g7a2f3v7l2nGRp0t40", "g5a3f1v5l2nVNp0t40", "g8a3f3v5l2nVNp0t40"],
+    "CVRP": ["n5s", "n20d", "zb6d", "n130d"], "LevelBasedForaging": ["g6a2f2v2l2cVNp0t100", "g8a3f3v3l3nGRp5t100", "g7a2f3v7l2nGRp0t40", "g5a3f1v5l2nVNp0t40", "g8a3f3v5l2nVNp0t40", "g6a4f1v6l2nVNp0t40"],
     "Maze": ["r4c7tNone", "r5c5t7", "r13c13tNone"], "MMST": ["n12e18a2k3t7", "n12e18a3k2t30"], "MultiCVRP": ["c6v2d", "c6v3s"],
     "PacMan": ["t40", "small200", "tunnel120", "tall90"], "RobotWarehouse": ["s1x3h3a2r1q2t500", "s1x3h2a1r1q1t7"],
     "Snake": ["r6c4t7", "r3c3t4000", "r12c12t20000deep", "r6c6t4000deep", "r2c3t40", "r4c4t4000"], "Sokoban": ["simplet120", "randomt120", "simplet10", "opent60"], "TSP": ["n5d", "n3d", "lat6s", "n130d"],
